@@ -54,8 +54,13 @@ func guard(call string, panics *[]string, f func()) {
 
 // runComponent loads J into a fresh component config; when env is non-nil the
 // variables are set and ApplyEnvVars is called after the load.
+// componentBaseDir: the (relative) configuration folder handed to a section
+// that is loaded on its own.
+const componentBaseDir = "conf"
+
 func (s *section) runComponent(J []byte, env map[string]string) (res result) {
 	c := s.newCfg()
+	c.SetBaseDir(componentBaseDir)
 	guard("LoadJSON", &res.panics, func() { res.loadErr = c.LoadJSON(J) })
 	if len(res.panics) > 0 || res.loadErr != nil {
 		return
